@@ -5,7 +5,7 @@ from core.wire import atom, line, parse_reply, Atom
 
 ID = "C31"
 LEAN_TARGETS = ["TornadoModel.C31.Props"]
-THEOREMS_ALL = [
+THEOREMS = [
     "TornadoModel.C31.first_match_wins",
     "TornadoModel.C31.app_first_match_wins",
     "TornadoModel.C31.first_match_characterised",
@@ -17,7 +17,6 @@ THEOREMS_ALL = [
     "TornadoModel.C31.reverse_then_match",
     "TornadoModel.C31.reverse_routes_back",
 ]
-THEOREMS = ["TornadoModel.C31.first_match_wins"]
 TRUSTED = [
     "CPython `re` for arbitrary user patterns: the model takes match results as the parameter `m` (a table computed by "
     "CPython per case); `first_match_wins` holds for every `m`",
